@@ -195,6 +195,12 @@ def check(case, ctx):
         out = call(lambda: np.asarray(ahrs.QuaternionArray(DCM=R3.copy(), method=gens.spell(m, k_sp + 2), **kw)))
         if ctx.returned(out, route=r):
             judge(ctx, r, m, out.value, R, theta, shape=(len(R3), 4))
+        # the array class with its normalising option switched off, and its conversion method called directly: what comes back must be unit already
+        for lab_, fn_ in (("versors=False", lambda: np.asarray(ahrs.QuaternionArray(DCM=R3.copy(), method=m, versors=False, **kw))),
+                          ("from_DCM(inplace=False)", lambda: np.asarray(ahrs.QuaternionArray().from_DCM(R3.copy(), method=m, inplace=False, **kw)))):
+            out = call(fn_)
+            if ctx.returned(out, clause="no-exception[%s]" % lab_, route="QuaternionArray(DCM=)/" + mn):
+                judge(ctx, "QuaternionArray(DCM=)/" + mn, m, out.value, R, theta, shape=(len(R3), 4))
         if np.all(R == np.round(R)):          # whole-number matrices (the cube rotations) typed as integers, one and a stack of them
             Ri = np.round(np.array([R, R.T, R @ R])).astype(int)
             for r, fi, ff in (("QuaternionArray(DCM=)/" + mn, lambda: np.asarray(ahrs.QuaternionArray(DCM=Ri.copy(), method=m, **kw)), lambda: np.asarray(ahrs.QuaternionArray(DCM=Ri.astype(float), method=m, **kw))),
